@@ -361,15 +361,38 @@ def check_derived(case, R):
     seed = dg("C11-derived", case) % (2 ** 32)
     np.random.seed(seed)
     warm = observe(_Quiet(), t, ident, radii, p, chain)  # measured first
-    ok, t2 = R.impl("derive:" + how, _derive, t, how, s, OFFSETS[1])
-    if not ok:
-        return
-    sc = s if how.endswith("scale") or "Scale" in how else 1.0
-    radii2 = [sc * r for r in radii]
+    if how.startswith("build:"):
+        # derivations that renumber / restructure (sort, sub tree, re-rooting, concatenation, file round trip ...): the derived tree is
+        # compared with a fresh tree built from the derived tree's OWN table
+        ok, t2 = R.impl("derive:" + how, build.derive, t, how[6:])
+        if not ok:
+            return
+        if t2 is None or not build.wellformed(t2)[0] or not np.all(np.isfinite(np.stack([t2.x(), t2.y(), t2.z(), t2.r()]))):
+            R.trivial()
+            return
+        p = [int(v) for v in t2.pid().tolist()]
+        n = len(p)
+        ident = list(range(n))
+        xyz2 = list(zip(t2.x().astype(np.float64).tolist(), t2.y().astype(np.float64).tolist(), t2.z().astype(np.float64).tolist()))
+        if n >= 2 and min(math.dist(xyz2[i], xyz2[p[i]]) for i in range(1, n)) == 0.0:
+            R.skip("derived-tree-has-a-zero-length-segment")
+            return
+        radii2 = RF.sholl_midgap_radii(p, xyz2) if n >= 2 else []
+        chain = not ref.furcations(p)
+    else:
+        ok, t2 = R.impl("derive:" + how, _derive, t, how, s, OFFSETS[1])
+        if not ok:
+            return
+        sc = s if how.endswith("scale") or "Scale" in how else 1.0
+        radii2 = [sc * r for r in radii]
     np.random.seed(seed)
-    got = observe(R, t2, ident, radii2, p, chain)
+    restructured = how.startswith("build:")
+    qd = _Quiet()
+    # a sub tree / re-rooted tree may have a root that is not typed soma: observables refusing such a tree refuse the fresh twin too
+    got = observe(qd if restructured else R, t2, ident, radii2, p, chain)
     cols = {k: np.array(t2.get_ndata(k), copy=True) for k in ("x", "y", "z", "r")}
-    fresh = build.make_tree(p, xyz=list(zip(cols["x"].tolist(), cols["y"].tolist(), cols["z"].tolist())), r=cols["r"].tolist())
+    fresh = build.make_tree(p, xyz=list(zip(cols["x"].tolist(), cols["y"].tolist(), cols["z"].tolist())), r=cols["r"].tolist(),
+                            types=[int(v) for v in t2.type().tolist()])
     assert all(np.array_equal(fresh.get_ndata(k), cols[k]) for k in cols)
     np.random.seed(seed)
     q = _Quiet()
@@ -377,6 +400,9 @@ def check_derived(case, R):
     ctx = f"p={p} bank={bank_k} geometry={variant} derived-by={how} s={s}"
     for name, (dim, kind, wv) in want.items():
         if name not in got:
+            if restructured:
+                R.fail("derived-tree-differs:raises-only-on-derived", f"{ctx}: {name} evaluates on a freshly built identical tree but not on the derived one: "
+                       f"{[e for e in qd.errors if e.startswith(name.split('[')[0])][:1] or qd.errors[:1]}", f"derived-tree-differs:raises:{name.split('[')[0]}:{how.split(':')[0]}")
             continue
         gv = got[name][2]
         if kind in ("multiset",):
@@ -453,6 +479,97 @@ def check_dyadic(case, R):
                 lambda: f"{ctx}: {name}: {bv} at the origin, {tv} after an exact translation (|coordinates| up to {cmax})",
                 f"not-invariant:{name.split('[')[0]}:exact-translation")
     R.outcome(p, k, si, len(got))
+
+
+# ------------------------------------------------------------------ exact rotations (the 24 rotations of the cube) of axis-aligned neurites
+
+
+def _cube_rotations():
+    out = []
+    for perm in itertools.permutations(range(3)):
+        for signs in itertools.product((1, -1), repeat=3):
+            m = [[0] * 3 for _ in range(3)]
+            for r_ in range(3):
+                m[r_][perm[r_]] = signs[r_]
+            det = (m[0][0] * (m[1][1] * m[2][2] - m[1][2] * m[2][1]) - m[0][1] * (m[1][0] * m[2][2] - m[1][2] * m[2][0])
+                   + m[0][2] * (m[1][0] * m[2][1] - m[1][1] * m[2][0]))
+            if det == 1:
+                out.append(m)
+    return out
+
+
+CUBE = _cube_rotations()  # 24 signed permutation matrices: exact in any float format
+LATTICE_RADII = ("tapering", "widening", "constant")
+
+
+def _lattice_geometry(p, radii_kind):
+    """Every segment parallel to a coordinate axis (reconstructions traced on image stacks: runs straight along x, y, z - in both
+    senses), dyadic lengths and radii; no two nodes coincide (asserted)."""
+    n = len(p)
+    xyz = [None] * n
+    dep = [ref.depth(p, i) for i in range(n)]
+    for i in sorted(range(n), key=lambda i: dep[i]):
+        if p[i] == -1:
+            xyz[i] = (0.5, 0.25, -0.75)
+            continue
+        ax = (i + dep[i]) % 3
+        sg = -1.0 if (i // 3 + dep[i]) % 2 else 1.0
+        step = [0.0, 0.0, 0.0]
+        step[ax] = sg * (1.0 + 0.5 * i)
+        xyz[i] = tuple(a + b for a, b in zip(xyz[p[i]], step))
+    assert len(set(xyz)) == n, "harness: lattice geometry has coincident nodes"
+    if radii_kind == "constant":
+        rad = [0.25] * n
+    else:
+        rad = [0.5 / (1 + dep[i]) + 0.03125 * (i % 2) for i in range(n)] if radii_kind == "tapering" else [0.125 * (1 + dep[i]) + 0.03125 * (i % 2) for i in range(n)]
+    return xyz, rad
+
+
+def check_cube(case, R):
+    """Rotation by an element of the cube group maps axis-aligned segments onto axis-aligned segments EXACTLY (coordinates are
+    permuted and negated): every morphometric must agree up to the rounding of its own evaluation - in particular for segments that
+    run exactly along -x, -y, -z, directions a generic bank never produces."""
+    case = jsonable(case)
+    p = [int(v) for v in case[0]]
+    ri, radii_kind = int(case[1]), case[2]
+    n = len(p)
+    R.state(p, ri, radii_kind)
+    xyz, rad = _lattice_geometry(p, radii_kind)
+    M = CUBE[ri]
+    xyz2 = [tuple(float(sum(M[r_][c] * pt[c] for c in range(3))) for r_ in range(3)) for pt in xyz]
+    radii = RF.sholl_midgap_radii(p, xyz) if n >= 2 else []
+    chain = not ref.furcations(p)
+    ident = list(range(n))
+    seed = dg("C11-cube", case) % (2 ** 32)
+    np.random.seed(seed)
+    q0 = _Quiet()
+    base = observe(q0, build.make_tree(p, xyz=xyz, r=rad), ident, radii, p, chain)
+    np.random.seed(seed)
+    got = observe(_AllowRaise(R, set(base)), build.make_tree(p, xyz=xyz2, r=rad), ident, radii, p, chain)
+    ctx = f"p={p} axis-aligned lattice, radii {radii_kind}, cube rotation {M}"
+    for name, (dim, kind, bv) in base.items():
+        if name not in got:
+            continue
+        tv = got[name][2]
+        if kind == "multiset":
+            tv, bv = sorted(tv), sorted(bv)
+        if kind == "steps":
+            continue  # radii chosen by the library may land on a node of a lattice tree: specification tie
+        ok = len(tv) == len(bv)
+        if ok:
+            for a, b in zip(tv, bv):
+                if kind in ("angle", "torque"):
+                    if kind == "torque":
+                        a, b = min(a, 180 - a), min(b, 180 - b)
+                    tol = 2 * angle_tol(b) + 1e-3
+                else:
+                    tol = 1e-5 * max(abs(b), 1e-3) + (64 * EPS32 * max(1.0, abs(b)) if kind == "volume" else 0.0)
+                if not (math.isfinite(a) and math.isfinite(b) and abs(a - b) <= tol):
+                    ok = False
+        R.check(ok, "not-invariant:" + name.split("[")[0],
+                lambda: f"{ctx}: {name}: {bv} before, {tv} after an exact rotation", f"not-invariant:{name.split('[')[0]}:exact-rotation")
+    R.outcome(p, ri, len(got))
+
 
 
 class _AllowRaise:
@@ -591,6 +708,11 @@ def spaces(tier, seed):
     dya_hi = 4 if tier == "quick" else 5
 
     def gen_derived():
+        for n_ in range(2, der_hi + 2):
+            for p in S.labelled_trees(n_):  # every numbering: sorting / re-rooting really renumber
+                for w in build.DERIVATIONS:
+                    if w not in ("Translate", "Scale", "RotateZ", "copy"):
+                        yield (p, geoms[0], "build:" + w, 1.0)
         for p in trees(der_hi):
             for g in geoms:
                 for how in DERIVE_HOWS:
@@ -634,11 +756,15 @@ def spaces(tier, seed):
         Space.of("renumberings", gen_renum, check_case, bounds={"ST_max_nodes": ren_hi, "renumberings": "all (n-1)! fixing the root, alone and composed", **common}),
         Space.of("scalings", gen_scale, check_case, bounds={"ST_max_nodes": sc_hi, **common}),
         Space.of("measured-then-derived", gen_derived, check_derived,
-                 bounds={"ST_max_nodes": der_hi, "derivations": DERIVE_HOWS, "scales": [2.0, 0.5], "offset": OFFSETS[1],
+                 bounds={"ST_max_nodes": der_hi, "derivations": DERIVE_HOWS, "LT_max_nodes_for_restructuring_derivations": der_hi + 1,
+                         "restructuring_derivations": [w for w in build.DERIVATIONS if w not in ("Translate", "Scale", "RotateZ", "copy")], "scales": [2.0, 0.5], "offset": OFFSETS[1],
                          "oracle": "observables of the derived tree == observables of a freshly built tree with bit-identical columns"}),
         Space.of("after-a-failed-evaluation", gen_fail, check_after_failure,
                  bounds={"ST_max_nodes": der_hi + 1, "failures": FAIL_KINDS,
                          "oracle": "observables of a fresh identical tree after the failure == before it"}),
+        Space.of("exact-rotations", lambda: ((p, ri, rk) for p in trees(dya_hi + 1) if len(p) >= 2 for ri in range(len(CUBE)) for rk in LATTICE_RADII), check_cube,
+                 bounds={"ST_max_nodes": dya_hi + 1, "rotations": "the 24 rotations of the cube (signed permutation matrices, exact)", "radii": list(LATTICE_RADII),
+                         "geometry": "every segment parallel to a coordinate axis, both senses, dyadic lengths"}),
         Space.of("exact-translations", gen_dyadic, check_dyadic,
                  bounds={"ST_max_nodes": dya_hi, "geometries (grain, shrink, max k)": DYADIC_GEOM, "offsets": [f"+-2^{k}" for k in DYADIC_SHIFTS], "sign_patterns": DYADIC_SIGNS,
                          "note": "dyadic coordinates + power-of-two offsets: the translation is exact in float32, so segment vectors are bit-identical"}),
